@@ -187,20 +187,39 @@ def i_go(ex, fr, ins):
 def i_defer(ex, fr, ins):
     call = ins["call"]
     args = [ex.val(fr, a) for a in call["args"]]
-    fr.defers.append((ins, args))
+    extra = None
+    if call["mode"] == "invoke":
+        extra = ex.val(fr, call["recv"])
+    elif call["mode"] == "dynamic":
+        extra = ex.val(fr, call["value"])
+    elif "closure" in call:
+        extra = ex.val(fr, call["closure"])
+    k = ("D", fr.id)
+    ex.write(k, ex.store.get(k, ()) + ((ins, tuple(args), extra),))
     return None
 
 
 def i_rundefers(ex, fr, ins):
-    while fr.defers:
-        dins, args = fr.defers.pop()
+    k = ("D", fr.id)
+    pending = ex.store.get(k, ())
+    ex.write(k, ())
+    for (dins, args, extra) in reversed(pending):
         call = dins["call"]
+        args = list(args)
         if call["mode"] == "static":
-            ex.call_function(call["fn"], args, dins)
+            ex.call_function(call["fn"], args, dins, extra.bindings if extra is not None else ())
         elif call["mode"] == "invoke":
-            raise Unsupported("deferred invoke")
+            iv = extra
+            hv = getattr(iv.val, "invoke", None) if iv is not None else None
+            if hv is not None:
+                hv(ex, call["method"], args, dins)
+            else:
+                fn = ex.prog.itabs.get(iv.tid, {}).get(call["method"])
+                if fn is None:
+                    raise Unsupported("deferred invoke of %s" % call["method"])
+                ex.call_function(fn, [iv.val] + args, dins)
         else:
-            ex.call_value(ex.val(fr, call["value"]), args, dins)
+            ex.call_value(extra, args, dins)
     return None
 
 
